@@ -342,6 +342,20 @@ TNoQuiet ==
   /\ tr' = Obs(Ev.post)
   /\ LedgerFrame /\ UNCHANGED <<phase, lastUser, corrupt>> /\ UNCHANGED Aux
   /\ Advance
+\* C10 "a file that keeps failing ... is set aside without stopping other files from synchronising": a progress report after a
+\* bounded number of fair rounds while one path is still failing - everything except that path (and what lies under it) has
+\* been synchronised.  kase = [kind "c10s", stuck <<path>>]
+StuckOnly(o) == kase.kind = "c10s" => Diff(StripConflicted(o[1]), StripConflicted(o[2])) \subseteq {p \in DOMAIN o[1] \cup DOMAIN o[2] : IsPrefix(kase.stuck, p)}
+TProgress ==
+  /\ Ev.ev \in {"Progress", "Unstick"}
+  /\ IF Ev.ev = "Progress"
+       THEN LET o == Obs(Ev.post) IN
+              /\ Check(StuckOnly(o), "OthersNotStarved")
+              /\ Conform(Ev.hits > 0, "StuckFileRetried")        \* vacuity guard: the path really kept failing
+              /\ tr' = o
+       ELSE tr' = tr
+  /\ LedgerFrame /\ UNCHANGED <<phase, lastUser, corrupt>> /\ UNCHANGED Aux
+  /\ Advance
 TEscape ==
   /\ Ev.ev = "Escape"
   /\ Check(FALSE, "NoEscape")
@@ -429,7 +443,7 @@ TSkip ==
 TraceNext ==
   /\ l <= Len(Tr)
   /\ \/ TBase \/ TUser \/ TECall \/ TStepEnd \/ TQuiet \/ TNoQuiet \/ TEscape \/ TAfter \/ TResolve
-     \/ TCorrupt \/ TSkip \/ TCase \/ TFault \/ TNotify \/ TIntake \/ TSyncEntry \/ TRestart \/ TSecondRun \/ TCompare \/ TStateOp \/ TUserModel \/ TPrim \/ TReq \/ TUnreq \/ TListing
+     \/ TCorrupt \/ TSkip \/ TCase \/ TFault \/ TNotify \/ TIntake \/ TSyncEntry \/ TRestart \/ TSecondRun \/ TCompare \/ TStateOp \/ TUserModel \/ TPrim \/ TReq \/ TUnreq \/ TListing \/ TProgress
 TraceSpec == TraceInit /\ [][TraceNext]_tvars
 
 ASSUME TLCSet(1, {}) /\ TLCSet(2, 0) /\ TLCSet(3, {})
